@@ -58,7 +58,7 @@ Qed.
 (* ---------- a measure that the equivalence preserves (to refute it on the witnesses) ---------- *)
 Definition w1 (e : ev) : nat :=
   match e with
-  | ECode _ _ _ _ es => S (length es)
+  | ECode _ _ _ _ _ es => S (length es)
   | ERc _ _ _ _ (Some es) => S (length es)
   | _ => 1
   end.
@@ -88,7 +88,7 @@ Qed.
 Lemma sim_item_w1 a b : sim_item a b -> w1 a = w1 b.
 Proof.
   destruct a, b; cbn [sim_item sim_leaf w1]; try (intros H; try discriminate H; try (destruct H; discriminate); reflexivity).
-  - intros (_ & _ & _ & _ & H). rewrite (perm_rel_length _ _ _ H). reflexivity.
+  - intros (_ & _ & _ & _ & _ & H). rewrite (perm_rel_length _ _ _ H). reflexivity.
   - intros (_ & _ & _ & _ & H). destruct es, es0; cbn [opt_rel] in H; try contradiction; [|reflexivity].
     rewrite (perm_rel_length _ _ _ H). reflexivity.
 Qed.
